@@ -230,6 +230,9 @@ CTX_SINK = {"sorted": {"sorted"}, "member": {"member"}, "eq": {"member"}, "size"
             "state:module": {"constant"}, "state:class": {"constant"},
             # caches, mutations of module-level containers and `global` statements have no admissible row
             "state:cache": set(), "state:mutate": set(), "state:global": set(),
+            # scheduling / time / chance: an import observes nothing by itself ("none"); a call needs a row whose
+            # sink says what its order reaches — none exists in /repo, so any such site fails closed
+            "nondet:import": {"none"}, "nondet:call": {"none", "sorted", "member"},
             # file-system access: inputs are read, the target is written, its existence is tested once; a row that
             # READS the target ("read-target") is not admissible
             "fs": {"read-input", "write-target", "target-exists"}}
@@ -329,6 +332,7 @@ class Case:
         self.split_queries = None
         self.probe = {}
         self.selfimport = False   # some generated module imports ABSOLUTELY from the target package itself
+        self.many = False         # schema and operations are ALWAYS directories of 25+ files (one definition each)
 
     def config(self, **over) -> dict:
         cfg = dict(self.sc.config)
@@ -339,6 +343,8 @@ class Case:
 
     def request(self, d: str, split_order: int | None = None, rng_seed: int = 0, **cfg_over) -> dict:
         schema, queries = self.sc.sdl, self.sc.queries
+        if self.many and split_order is None:
+            schema, queries = self.split_schema, self.split_queries
         if split_order is not None:
             r = random.Random(rng_seed * 131 + split_order)
             schema = self.split_schema if split_order == 0 else c10_gen.shuffled(self.split_schema, r)
@@ -410,8 +416,19 @@ def build_cases(ctx) -> list[Case]:
             continue
         if i % 3 == 1:   # pruned enums / inputs (the used-name lists come from several generators)
             c.sc.config = {**c.sc.config, "include_all_enums": False, "include_all_inputs": False}
+    # projects of MANY files: every generation of these cases loads 25+ schema files and 25+ operation files
+    n_many = len(cases)
+    for i in range(6 if t else 2):
+        sc = c10_gen.make(1300 + i + ctx.seed * 10007)
+        c = Case(f"manyfiles{i}", sc, PLUGIN_SETS[[0, 2, 1][i % 3]], "manyfiles")
+        c.many = True
+        cases.append(c)
     for c in cases:
         r = random.Random(sum(map(ord, c.sid)) * 31 + ctx.seed)
+        if c.many:
+            c.split_schema = c10_gen.many_files(c.sc.sdl, r, "schema")
+            c.split_queries = c10_gen.many_files(c.sc.queries, r, "queries")
+            continue
         c.split_schema = c10_gen.split_document(c.sc.sdl, r)
         c.split_queries = c10_gen.split_document(c.sc.queries, r)
     return cases
@@ -780,6 +797,8 @@ def k3(ctx, scratch):
         run.dist("async_client", str(c.sc.config.get("async_client")))
         run.dist("custom_scalars", "yes" if c.sc.config.get("scalars") else "no")
         run.dist("pruned_enums_inputs", str(c.sc.config.get("include_all_enums") is False))
+        run.dist("input_files_per_case", f"{len(c.split_schema) // 10 * 10}+ schema / {len(c.split_queries) // 10 * 10}+ operations" if c.many
+                 else "single files (+ split variants)")
     if True:
         results = {}   # (sid, variant) -> files
         reqmap = {}    # (sid, variant) -> (req, res)
@@ -1281,7 +1300,8 @@ def k3_cross_project(ctx, scratch):
 def k3_schema(ctx, cases, scratch, seeds):
     """graphqlschema strategy: .py and .graphql targets, single file and directory schemas, regeneration"""
     run = ctx.run
-    picked = cases[:: 3] if not ctx.thorough else cases[:: 2]
+    picked = (cases[:: 3] if not ctx.thorough else cases[:: 2]) + [c for c in cases if c.many]
+    picked = list(dict.fromkeys(picked))
     plan = {s: [] for s in seeds}
     for c in picked:
         for fmt, tfile in (("py", "schema_types.py"), ("graphql", "schema.out.graphql")):
